@@ -65,7 +65,7 @@ Definition act_pre (me : nat) (f : file) (a : act) : Prop :=
   match a with
   | AExtend e => e mod 16384 = 0
   | AReserve me' s e nm =>
-      me' = me /\ place (f_limit f) nm = (s, e) /\ e <= f_size f /\ nlen nm <= c_maxNameLen /\ e + PAGE <= W32 /\
+      me' = me /\ place (f_limit f) nm = (s, e) /\ e <= f_size f /\ nlen nm <= c_maxNameLen /\ e < W32 /\
       1 <= nlen nm
   | ACopy off => owned_unlinked me f off
   | ALen off => owned_unlinked me f off
@@ -361,7 +361,7 @@ Definition pc_inv (me : nat) (f : file) (t : thread) : Prop :=
       (1 <= nlen nm /\ nlen nm <= c_maxNameLen) /\ inch f b (t_head t) /\ fresh_from f b nm (t_head t)
   | PCas =>
       (1 <= nlen nm /\ nlen nm <= c_maxNameLen) /\ inch f b (t_head t) /\ fresh_from f b nm (t_head t) /\
-      place (t_lim t) nm = (t_start t, t_end t) /\ t_end t <= t_map t /\ t_end t + PAGE <= W32
+      place (t_lim t) nm = (t_start t, t_end t) /\ t_end t <= t_map t /\ t_end t < W32
   | WCopy => inch f b (t_head t) /\ fresh_from f b nm (t_head t) /\ mine me f (t_start t) nm false false
   | WLen => inch f b (t_head t) /\ fresh_from f b nm (t_head t) /\ mine me f (t_start t) nm true false
   | KNext => inch f b (t_head t) /\ fresh_from f b nm (t_head t) /\ mine me f (t_start t) nm true true
@@ -700,11 +700,12 @@ Lemma post_PLimit : t_pc t = PLimit -> goal.
 Proof.
   intro Pc. tinv_parts T. use_pc Pc. destruct P as ([Nm1 Nm2] & Ih & Fr).
   destruct (place (f_limit f) (t_nm t)) as [s e] eqn:Pl.
-  destruct (W32 <=? e + PAGE) eqn:Q1; sg.
+  destruct (W32 <=? round e PAGE) eqn:Q1; sg.
   - split; [|rewrite succ_ret_fail; reflexivity]. apply ret_fail_tinv. apply base_of; auto.
   - apply N.leb_gt in Q1. destruct (t_map t <? e) eqn:Q2; sg.
     + split; [|reflexivity]. unfold tinv, pc_inv; cbn. splits; auto.
-    + apply N.ltb_ge in Q2. split; [|reflexivity]. unfold tinv, pc_inv; cbn. splits; auto. lia.
+    + apply N.ltb_ge in Q2. split; [|reflexivity]. unfold tinv, pc_inv; cbn. splits; auto.
+      pose proof (round_page e) as (Rp & _). lia.
 Qed.
 
 Lemma post_EStat : t_pc t = EStat -> goal.
